@@ -60,6 +60,10 @@ def classify_common(rec):
         return "F38-order-by-qualified-generated-alias"
     if v == "sql-err" and rec["program"].meta.get("let_at") and re.search(r"no such column: [a-z]+\b", str(rec.get("sqlite"))) and re.search(r"WITH p0 AS \(SELECT (?!\*)", sql):
         return "F39-let-sort-key-expression-reinlined"
+    if v == "sql-err" and rec["program"].meta.get("let_at") and "join" in kinds:
+        m = re.search(r"no such column: (\w+)\.(\w+)", str(rec.get("sqlite")))
+        if m and re.search(r"ORDER BY [^()]*\b%s\.%s\b" % (re.escape(m.group(1)), re.escape(m.group(2))), sql):
+            return "C07-N1-order-by-inner-relation"
     if v == "rows" and " INTERSECT " in sql and any(st.info.get("alljoin") and st.info.get("side") == "Inner" for st in rec["program"].steps):
         return "F41-inner-join-rewritten-to-intersect"
     if v in ("rows", "names", "sql-err"):
